@@ -210,7 +210,15 @@ pub mod recursion {
 
     /// `check_depth(depth).is_ok()`
     pub fn check_depth(depth: usize) -> bool {
-        RecursionCheck::check_depth(depth).is_ok()
+        match RecursionCheck::check_depth(depth) {
+            Ok(()) => true,
+            Err(e) => {
+                // the verifier need not walk the error's drop glue
+                #[allow(clippy::mem_forget)]
+                std::mem::forget(e);
+                false
+            }
+        }
     }
 
     /// `enter()` from `current`: (`is_ok`, counter afterwards)
